@@ -2,89 +2,8 @@
 package main
 
 import (
-	"encoding/json"
-	"flag"
-	"fmt"
-	"io"
-	"os"
-	"strconv"
-
-	"k8s.io/klog/v2"
-
 	"verif/harness/core"
 	_ "verif/harness/drivers"
 )
 
-func quiet() {
-	fs := flag.NewFlagSet("k", flag.ContinueOnError)
-	klog.InitFlags(fs)
-	_ = fs.Set("logtostderr", "false")
-	_ = fs.Set("alsologtostderr", "false")
-	_ = fs.Set("stderrthreshold", "FATAL")
-	klog.SetOutput(io.Discard)
-}
-
-func main() {
-	if len(os.Args) < 2 {
-		fmt.Fprintln(os.Stderr, "usage: vcheck <property>|list|worker ... [--tier quick|thorough] [--seed N] [--replay file] [--case i]")
-		os.Exit(2)
-	}
-	if os.Getenv("VERIF_KLOG") == "" {
-		quiet()
-	}
-	switch os.Args[1] {
-	case "worker":
-		os.Exit(core.WorkerMain(os.Args[2:]))
-	case "list":
-		for _, id := range core.IDs() {
-			fmt.Println(id)
-		}
-		return
-	}
-	id := os.Args[1]
-	fs := flag.NewFlagSet("vcheck", flag.ExitOnError)
-	tier := fs.String("tier", envOr("VERIF_TIER", "quick"), "quick|thorough")
-	seed := fs.Int64("seed", envInt("VERIF_SEED", 1), "seed")
-	replay := fs.String("replay", "", "replay file")
-	caseIdx := fs.Int("case", -1, "run only this case")
-	workers := fs.Int("workers", int(envInt("VERIF_WORKERS", 0)), "worker processes")
-	keep := fs.Bool("keep", false, "keep temp dir")
-	_ = fs.Parse(os.Args[2:])
-	opt := core.Options{Tier: *tier, Seed: *seed, Workers: *workers, KeepTmp: *keep}
-	if *replay != "" {
-		b, err := os.ReadFile(*replay)
-		if err != nil {
-			fmt.Fprintln(os.Stderr, err)
-			os.Exit(2)
-		}
-		var r struct {
-			Tier string `json:"tier"`
-			Seed int64  `json:"seed"`
-			Case int    `json:"case"`
-		}
-		if err := json.Unmarshal(b, &r); err != nil {
-			fmt.Fprintln(os.Stderr, err)
-			os.Exit(2)
-		}
-		opt.Tier, opt.Seed, opt.ReplayIdx = r.Tier, r.Seed, []int{r.Case}
-	}
-	if *caseIdx >= 0 {
-		opt.ReplayIdx = []int{*caseIdx}
-	}
-	os.Exit(core.ParentMain(id, opt))
-}
-
-func envOr(k, d string) string {
-	if v := os.Getenv(k); v != "" {
-		return v
-	}
-	return d
-}
-func envInt(k string, d int64) int64 {
-	if v := os.Getenv(k); v != "" {
-		if n, err := strconv.ParseInt(v, 10, 64); err == nil {
-			return n
-		}
-	}
-	return d
-}
+func main() { core.Main() }
